@@ -9,7 +9,7 @@ import (
 
 func init() {
 	register(&propDef{
-		ID: "C11", Level: "other", Run: runC11,
+		ID: "C11", Level: "other", Run: withShared(runC11, share{"C13", runC13, ruleIs("min-raise-init")}, share{"C12", runC12, ruleIs("min-raise-owner")}),
 		Explanation: "The situation-to-actions table of GetAvailableActions is extracted as path conditions over {Fold, StackSize, Wager, InitialStackSize, CurrentWager, PreviousRaiseSize, MiniBet} and compared with the property's sentence on every assignment of a bounded integer grid (all orderings of the terms; state constraints: non-negative, StackSize = InitialStackSize - Wager): exactly one row applies and its offer satisfies the reference. Check/Fold/Pass reach no chip mover and store no chip account; Allin passes the stack, Bet its parameter, Call the difference to the wager to match; the chip mover's per-branch affine summary gives Wager' = Wager + chips and CurrentWager' = Wager' when higher, all-in commits InitialStackSize in total. Does NOT decide reachability of each situation.",
 		Trusted:     commonTrusted,
 		Assumptions: []string{"state constraints used for the grid: all chip quantities >= 0, StackSize = InitialStackSize - Wager (C01 identity I2)", "grid 0..6 (quick) / 0..9 (thorough): complete for predicates that compare unit-coefficient sums of at most three terms"},
